@@ -21,6 +21,11 @@ claim("C01",
       "Trusted: Lean kernel, 3 standard axioms, extractor (std tables), oracle hooks, program generator. NOT proved: that consistent renaming preserves behaviour (compiler/linker semantics); sampled by the e2e differential. Assembly tokenisation (replaceAsmNames scanning) is exercised by correspondence only.",
       "Lean 4 proof (naming consistency across 5 code paths) + oracle/model differential on real go-list-loaded packages + e2e differential", "DESIGN.md 5/C01")
 
+claim("C02",
+      "PARTIAL: what the compiler/linker put in a binary is outside any model. Proved (Lean 4): kept_only_if_documented - for EVERY object descriptor and environment, the naming decision keeps a name only for one of the documented reasons (universe, the four special-cased std names, package out of scope, non-renamed kinds, intrinsics, exported methods, main/init/TestMain, test functions) - a new silent exemption breaks the tie; link_flags - for every link command line of the shape the go command produces, the transformed flags contain -w, -s and -X=runtime.buildVersion=unknown (proved through lemmas about flagSetValue: it keeps every argument that is not the one it rewrites); importcfg_only_known_lines - for every importcfg content the rewritten file has only importmap/packagefile lines (modinfo dropped); positions are empty under -tiny and a package-salted hash of file:offset otherwise. Tie: real transformLink on generated command lines and importcfg files, real printFile line directives vs. the model on reference call offsets, ~6k object decisions checked against the exception list. End-to-end: the garbled binary of generated programs is scanned for the program's unique name stem (identifiers, files, dirs, module), source and TMPDIR paths, Go version, symbol/DWARF sections, module info, build ID.",
+      "Trusted: Lean kernel, 3 axioms, extractor, oracle hooks, generator (which names carry the must-go stem). Not modelled: compiler, assembler, linker output; sampled by the scan.",
+      "Lean 4 proof (decision exceptions, link flags, importcfg, positions) + oracle/model differential + binary scan", "DESIGN.md 5/C02")
+
 claim("C12",
       "Lean 4 theorems over the model of garble's salt derivation (appendFlags, addGarbleToHash, hashWithPackage, hashWithStruct's salt, runtimeHashWithCustomSalt): seeded names depend only on (seed, import path | struct hash, identifier) for ANY two configurations and action IDs; the seeded pre-image is injective in the path (| separator) and in the seed; unseeded, the addGarbleToHash pre-image is injective in (action ID, garble binary ID, -literals, -tiny, -seed, ctrlflow, GOGARBLE) for all values - proved via unique decodability of the flag tokens and injectivity of base64 (this theorem was false before the fix: commit that hashes GOGARBLE last). Tie: differential histories of the real functions vs. the model over few seeds/paths/names and many configurations, plus the real seed flag parser.",
       "Trusted: Lean kernel, 3 standard axioms, oracle hook + differ. Assumed: SHA-256 collision resistance on the compared pre-images; cmd/go's action ID covers source/tags/GOOS/GOARCH/Go version; import paths contain no '|'.",
